@@ -61,11 +61,11 @@ PLANS = {
                       cycles=dict(runs=60, n=12, fs=[25, 60, 200, 400, 1200], vts=["ovf", "mixed", "mixed2", "big", "edge", "huge"]))),
     "C09": dict(
         quick=dict(mc=["core2"], gens=[dict(maxlog=1, num=40, depth=24, lean=True, focus="rollback"),
-                                       dict(maxlog=2, num=40, depth=24, lean=True, focus="rollback"),
+                                       dict(maxlog=2, num=40, depth=24, lean=True, focus="rollback", templates="rollback"),
                                        dict(maxlog=3, num=40, depth=24, lean=True, focus="rollback")],
                    per_beh=2, fs=[1, 3], vts=["tiny", "edge", "ovf", "big", "empty"], embs=api.EMBEDDINGS_QUICK,
                    segs=[4096, 8192, 65536, 0]),
-        thorough=dict(mc=["core", "core2"], gens=[dict(maxlog=m, num=300, depth=32, lean=True, focus="rollback")
+        thorough=dict(mc=["core", "core2"], gens=[dict(maxlog=m, num=300, depth=32, lean=True, focus="rollback", templates="rollback")
                                                   for m in (1, 2, 3)],
                       per_beh=4, fs=[1, 3, 25], vts=["tiny", "edge", "ovf", "big", "huge", "empty"], embs=api.EMBEDDINGS_ALL,
                       segs=[4096, 8192, 65536, 0])),
@@ -134,7 +134,10 @@ def run_plan(pid, tier, seed, extra_cov=None, t0=None):
         if g.get("top"):
             # generate many, keep the behaviours richest in the features of the focus
             kept = sorted(kept, key=lambda b: -api.score(b, g["focus"]))[: g["top"]]
-        if g.get("templates"):
+        if g.get("templates") == "rollback":
+            tpl = api.rollback_templates(sorted(consts["Keys"]), g["maxlog"])
+            kept = kept + (tpl if tier == "thorough" else rng.sample(tpl, 8))
+        elif g.get("templates"):
             kept = kept + api.overlay_templates(sorted(consts["Keys"]))
         C.log("[%s] generated %d behaviours (maxlog=%d), %d match focus '%s'" %
               (pid, len(behs), g["maxlog"], len(kept), g["focus"]))
